@@ -224,6 +224,17 @@ int ThrowingConversion(const std::string& field_from_file) {
   return std::stoi(field_from_file);
 }
 
+// --- E1 control: substr() at a position that a search reported (npos when nothing was found: out_of_range) ----
+std::string SubstrOfFind(const std::string& line) {
+  return line.substr(line.find_first_not_of(' '));
+}
+std::string SubstrOfFindChecked(const std::string& line) {
+  size_t p = line.find_first_not_of(' ');
+  if (p == std::string::npos)
+    return "";
+  return line.substr(p);
+}
+
 // --- V1 control: a slice without terminator handed to a function that reads up to a NUL ---------------
 struct StringPiece { const char* str_; size_t len_; };
 bool UnterminatedSlice(StringPiece word) {
